@@ -17,6 +17,20 @@ pub fn check(cx: &Cx, rep: &mut Report) {
         }
         let stopped_by_request = af.stops.iter().any(|s| s.accepted) || af.stream_end.is_some();
         let reap = ix.phase("reap");
+        // a `Sender::send` future is `'static`: parked (created, polled k times, kept) it owns a clone of the channel
+        // sender, so it keeps the mailbox open after the last handle proper is gone, and what it submits is handled
+        for o in ix.ops.iter().filter(|o| o.tag == af.tag && o.op == OpK::Send && o.arg >= 1 && o.executed()) {
+            rep.premise("C05.R2.parked_send");
+            if let (Some(g), Some(e), true) = (af.arc_gone_at, o.e, o.ok()) {
+                if e > g && !af.failed() && !stopped_by_request {
+                    rep.premise("C05.R2.parked_send_completed_after_last_handle");
+                    nontrivial = true;
+                    if !ix.inv_of.contains_key(&o.msg) && reap.map(|r| e < r).unwrap_or(true) {
+                        rep.fail(P, "R2", "parked_send_lost", format!("msg {} of a parked Sender::send future was accepted (Ok at #{e}) after the last handle was gone (#{g}); nobody stopped actor tag {} and it did not fail, but the message was never handled", o.msg, af.tag), vec![o.b, g, e]);
+                    }
+                }
+            }
+        }
         // R1: never terminates while a strong handle exists (no stop, no failure)
         if !af.failed() && !stopped_by_request {
             if let Some((t_in, _)) = af.t_final() {
